@@ -115,7 +115,7 @@ structure Tok (V : Type) where
   e : Nat                 -- inclusive
   str : Str
   val : Option V          -- `none`: unmatched
-deriving Repr
+deriving Repr, DecidableEq
 
 def Tok.len {V : Type} (t : Tok V) : Nat := t.e + 1 - t.s
 
